@@ -47,7 +47,10 @@ def run_tlc(spec_dir, module, cfg_text, out_path, workers=8, env=None, timeout=1
     meta = os.path.join(wd, tag + ".meta")
     shutil.rmtree(meta, ignore_errors=True)
     cp = os.pathsep.join([TLA_JAR] + [os.path.join(VERIF, "spec", d) for d in sorted(os.listdir(os.path.join(VERIF, "spec")))])
-    cmd = ["timeout", str(timeout), "java", "-XX:+UseParallelGC", "-Xss1g", "-Xmx" + heap, "-Dfile.encoding=UTF-8",
+    jtmp = os.path.join(wd, tag + ".jtmp")       # TLC unpacks its standard modules into java.io.tmpdir: keep /tmp clean
+    shutil.rmtree(jtmp, ignore_errors=True)
+    os.makedirs(jtmp, exist_ok=True)
+    cmd = ["timeout", str(timeout), "java", "-XX:+UseParallelGC", "-Xss1g", "-Xmx" + heap, "-Dfile.encoding=UTF-8", "-Djava.io.tmpdir=" + jtmp,
            "-Dtlc2.tool.queue.IStateQueue=StateDeque" if module.startswith("Trace_") else "-Dverif=1",
            "-cp", cp, "tlc2.TLC", "-workers", str(workers), "-metadir", meta, "-cleanup", "-noGenerateSpecTE",
            "-config", cfg_path]
@@ -61,6 +64,7 @@ def run_tlc(spec_dir, module, cfg_text, out_path, workers=8, env=None, timeout=1
     with open(out_path, "w") as f:
         r = subprocess.run(cmd, cwd=spec_dir, env=e, stdout=f, stderr=subprocess.STDOUT)
     shutil.rmtree(meta, ignore_errors=True)
+    shutil.rmtree(jtmp, ignore_errors=True)
     res = {"rc": r.returncode, "wall": time.time() - t, "generated": 0, "distinct": 0, "error": None, "out": out_path,
            "module": module}
     err_lines = []
